@@ -26,6 +26,9 @@ func checkC10(p *Prog, c *Check) {
 	c.extra["bounds_functions_in_scope"] = st.funcs
 	c.extra["bounds_obligations"] = st.obligations
 	c.Floor("C10-R1.obligations", st.obligations, 25)
+	// a transaction that leaves a sub-message out must be refused, not dereferenced
+	nn := nilProto(p, c, "C10-R1.nil", opts.scope)
+	c.Floor("C10-R1.nil", nn, 3)
 	c10Invariants(p, c)
 	c11Nonce(p, c, "C10-R2")
 	c10RefuseCodes(p, c)
